@@ -149,9 +149,9 @@ Proof.
   - unfold evm_dispatch in H. rewrite F in H. discriminate.
 Qed.
 
-Lemma tx_sound c s ep p subj f n a gw biz :
-  snd (tx_dispatch c s ep p subj f n a gw biz) = Accepted ->
-  authorized c s (CallTx ep p subj f n a gw biz) = true.
+Lemma tx_sound c s ep p subj stg f n a gw biz :
+  snd (tx_dispatch c s ep p subj stg f n a gw biz) = Accepted ->
+  authorized c s (CallTx ep p subj stg f n a gw biz) = true.
 Proof.
   intro H. unfold authorized. unfold tx_dispatch in H.
   destruct (family_of ep) eqn:F; try (simpl in H; discriminate).
@@ -181,7 +181,7 @@ Lemma dispatch_sound c s cl :
   known_gap (ep_of cl) = false ->
   snd (dispatch c s cl) = Accepted -> authorized c s cl = true.
 Proof.
-  destruct cl as [ep caller isc origin sender owners task biz | ep p subj f n a gw biz | ep gw biz]; intros G H;
+  destruct cl as [ep caller isc origin sender owners task biz | ep p subj stg f n a gw biz | ep gw biz]; intros G H;
     simpl in G, H.
   - apply evm_sound; assumption.
   - apply tx_sound; assumption.
@@ -213,16 +213,17 @@ Definition same_but_nonces (s s' : state) : Prop :=
 Lemma same_but_nonces_refl s : same_but_nonces s s.
 Proof. unfold same_but_nonces; auto. Qed.
 
-Lemma tx_not_accepted c s ep p subj f n a gw biz :
-  snd (tx_dispatch c s ep p subj f n a gw biz) <> Accepted ->
-  let s' := fst (tx_dispatch c s ep p subj f n a gw biz) in
-  s' = s \/ (ep = M_oracle_CreatePrice /\ snd (tx_dispatch c s ep p subj f n a gw biz) = RejectedMsg /\
-             authorized c s (CallTx ep p subj f n a gw biz) = true /\ same_but_nonces s s').
+Lemma tx_not_accepted c s ep p subj stg f n a gw biz :
+  snd (tx_dispatch c s ep p subj stg f n a gw biz) <> Accepted ->
+  let s' := fst (tx_dispatch c s ep p subj stg f n a gw biz) in
+  s' = s \/ (ep = M_oracle_CreatePrice /\ snd (tx_dispatch c s ep p subj stg f n a gw biz) = RejectedMsg /\
+             authorized c s (CallTx ep p subj stg f n a gw biz) = true /\ same_but_nonces s s').
 Proof.
   intro H. simpl. unfold tx_dispatch in *.
   destruct (family_of ep) eqn:F; simpl in *; auto.
   - destruct (std_ante p a); simpl in *; auto. destruct biz; simpl in *; auto. exfalso; apply H; reflexivity.
   - destruct (std_ante p a); simpl in *; auto. destruct (String.eqb p subj); simpl in *; auto.
+    destruct (negb ((stg =? 1)%N || (stg =? 2)%N)); simpl in *; auto.
     destruct biz; simpl in *; auto. exfalso; apply H; reflexivity.
   - destruct (std_ante p a); simpl in *; auto.
   - destruct (oracle_sig_ok p a) eqn:A; simpl in *; auto.
@@ -243,11 +244,11 @@ Proof.
   assert (NA : snd (dispatch c s cl) <> Accepted).
   { intro A. rewrite (dispatch_sound _ _ _ G A) in U. discriminate. }
   split; [|exact NA].
-  destruct cl as [ep caller isc origin sender owners task biz | ep p subj f n a gw biz | ep gw biz]; simpl in *.
+  destruct cl as [ep caller isc origin sender owners task biz | ep p subj stg f n a gw biz | ep gw biz]; simpl in *.
   - pose proof (evm_not_accepted_same _ _ _ _ _ _ _ _ NA) as E.
     destruct (evm_dispatch s ep caller origin sender owners task biz) as [s' v]; simpl in *. subst. reflexivity.
-  - destruct (tx_not_accepted _ _ _ _ _ _ _ _ _ _ NA) as [E | [_ [_ [Au _]]]].
-    + destruct (tx_dispatch c s ep p subj f n a gw biz) as [s' v]; simpl in *. subst. reflexivity.
+  - destruct (tx_not_accepted _ _ _ _ _ _ _ _ _ _ _ NA) as [E | [_ [_ [Au _]]]].
+    + destruct (tx_dispatch c s ep p subj stg f n a gw biz) as [s' v]; simpl in *. subst. reflexivity.
     + simpl in Au. congruence.
   - destruct (family_of ep); simpl in *; try reflexivity; discriminate.
 Qed.
@@ -258,9 +259,9 @@ Lemma dispatch_rejected_early_same c s cl :
 Proof.
   intros H.
   assert (NA : snd (dispatch c s cl) <> Accepted) by (destruct H as [H|[H|H]]; rewrite H; discriminate).
-  destruct cl as [ep caller isc origin sender owners task biz | ep p subj f n a gw biz | ep gw biz]; simpl in *.
+  destruct cl as [ep caller isc origin sender owners task biz | ep p subj stg f n a gw biz | ep gw biz]; simpl in *.
   - exact (evm_not_accepted_same _ _ _ _ _ _ _ _ NA).
-  - destruct (tx_not_accepted _ _ _ _ _ _ _ _ _ _ NA) as [E | [_ [R _]]]; [exact E|].
+  - destruct (tx_not_accepted _ _ _ _ _ _ _ _ _ _ _ NA) as [E | [_ [R _]]]; [exact E|].
     destruct H as [H|[H|H]]; rewrite H in R; discriminate.
   - destruct (family_of ep); simpl in *; try reflexivity. apply params_not_accepted_same. exact NA.
 Qed.
@@ -290,7 +291,7 @@ Lemma dispatch_gateway_frame c s cl :
   st_gateway (fst (dispatch c s cl)) <> st_gateway s ->
   ep_of cl = M_assets_UpdateParams /\ snd (dispatch c s cl) = Accepted.
 Proof.
-  destruct cl as [ep caller isc origin sender owners task biz | ep p subj f n a gw biz | ep gw biz]; simpl.
+  destruct cl as [ep caller isc origin sender owners task biz | ep p subj stg f n a gw biz | ep gw biz]; simpl.
   - intro H. exfalso. apply H. apply evm_gateway_frame.
   - unfold tx_dispatch. destruct (family_of ep) eqn:F; simpl; try (intro H; exfalso; apply H; reflexivity);
       repeat brk1; simpl; try (intro H; exfalso; apply H; reflexivity).
@@ -357,7 +358,7 @@ Qed.
 
 Lemma dispatch_authority_frame c s cl : st_authority (fst (dispatch c s cl)) = st_authority s.
 Proof.
-  destruct cl as [ep caller isc origin sender owners task biz | ep p subj f n a gw biz | ep gw biz]; simpl.
+  destruct cl as [ep caller isc origin sender owners task biz | ep p subj stg f n a gw biz | ep gw biz]; simpl.
   - apply evm_authority_frame.
   - unfold tx_dispatch, params_handler. destruct (family_of ep); simpl; repeat brk1; simpl; try reflexivity;
     destruct ep; simpl; reflexivity.
@@ -369,7 +370,7 @@ Qed.
 Definition not_gov (authority : addr) (cl : call) : bool :=
   match cl with
   | CallGov _ _ _ => false
-  | CallTx _ _ _ _ _ a _ _ => negb (signed_by a authority)
+  | CallTx _ _ _ _ _ _ a _ _ => negb (signed_by a authority)
   | CallEvm _ _ _ _ _ _ _ _ => true
   end.
 
@@ -383,7 +384,7 @@ Proof.
   exfalso. apply String.eqb_neq in E.
   destruct (dispatch_gateway_frame c s cl E) as [EP A].
   assert (Au : authorized c s cl = true) by (apply dispatch_sound; [rewrite EP; reflexivity|exact A]).
-  destruct cl as [ep caller isc origin sender owners task biz | ep p subj f n a gw biz | ep gw biz];
+  destruct cl as [ep caller isc origin sender owners task biz | ep p subj stg f n a gw biz | ep gw biz];
     simpl in EP, NG; subst ep; simpl in Au.
   - discriminate.
   - rewrite M in Au. apply andb_prop in Au. destruct Au as [Sg Eq]. apply String.eqb_eq in Eq. subst p.
@@ -401,4 +402,35 @@ Proof.
   pose proof (dispatch_gateway_needs_gov c s x M Hx) as Gf.
   destruct (IH (fst (dispatch c s x))) as [G A]; [rewrite Af; exact Hr|].
   split; congruence.
+Qed.
+
+(* ---- the four gap entry points: what IS guaranteed ---- *)
+Lemma gap_accept_shape c s cl :
+  known_gap (ep_of cl) = true -> snd (dispatch c s cl) = Accepted ->
+  gap_guarantee s cl = true /\
+  exists ep caller isc origin sender owners task biz,
+    cl = CallEvm ep caller isc origin sender owners task biz /\ fst (dispatch c s cl) = log_effect s ep sender.
+Proof.
+  destruct cl as [ep caller isc origin sender owners task biz | ep p subj stg f n a gw biz | ep gw biz];
+    unfold known_gap; simpl; intros G H.
+  - unfold evm_dispatch in *. unfold gap_guarantee.
+    destruct (family_of ep) eqn:F; try discriminate G.
+    + destruct (find_avs caller (st_avs s)); simpl in *; [|discriminate].
+      destruct biz; simpl in *; [|discriminate].
+      split; [reflexivity|]. exists ep, caller, isc, origin, sender, owners, task, true. split; reflexivity.
+    + destruct biz; simpl in *; [|discriminate]. split; [reflexivity|]. exists ep, caller, isc, origin, sender, owners, task, true. split; reflexivity.
+    + destruct (find_avs_by_task caller (st_avs s)); simpl in *; [|discriminate].
+      destruct biz; simpl in *; [|discriminate].
+      split; [reflexivity|]. exists ep, caller, isc, origin, sender, owners, task, true. split; reflexivity.
+  - unfold tx_dispatch in H. destruct (family_of ep); simpl in H; try discriminate G; discriminate H.
+  - destruct (family_of ep); simpl in H; try discriminate G; discriminate H.
+Qed.
+
+Lemma dispatch_sound_total c s cl :
+  snd (dispatch c s cl) = Accepted ->
+  authorized c s cl = true \/ (known_gap (ep_of cl) = true /\ gap_guarantee s cl = true).
+Proof.
+  intro H. destruct (known_gap (ep_of cl)) eqn:G.
+  - right. split; [reflexivity|]. exact (proj1 (gap_accept_shape c s cl G H)).
+  - left. exact (dispatch_sound c s cl G H).
 Qed.
